@@ -170,24 +170,60 @@ func c07(c *core.Ctx) {
 						continue
 					}
 					key := core.FuncName(fn) + ":make(" + core.ValName(n) + ")"
-					lower := core.GuardedBy(mk, func(f core.Fact) bool {
-						k, isC := core.ConstInt(f.Y)
-						return stripNum(f.X) == n && isC && ((f.Op == token.GEQ && k >= 0) || (f.Op == token.GTR && k >= -1))
-					})
-					var bound int64 = -1
-					upper := core.GuardedBy(mk, func(f core.Fact) bool {
-						k, isC := core.ConstInt(f.Y)
-						if stripNum(f.X) != n || !isC {
-							return false
-						}
-						if f.Op == token.LEQ || f.Op == token.LSS {
-							if k > bound {
-								bound = k
+					guardsAt := func(at ssa.Instruction, n ssa.Value) (bool, bool, int64) {
+						lower := core.GuardedBy(at, func(f core.Fact) bool {
+							k, isC := core.ConstInt(f.Y)
+							return stripNum(f.X) == n && isC && ((f.Op == token.GEQ && k >= 0) || (f.Op == token.GTR && k >= -1))
+						})
+						var bound int64 = -1
+						upper := core.GuardedBy(at, func(f core.Fact) bool {
+							k, isC := core.ConstInt(f.Y)
+							if stripNum(f.X) != n || !isC {
+								return false
 							}
-							return true
+							if f.Op == token.LEQ || f.Op == token.LSS {
+								if k > bound {
+									bound = k
+								}
+								return true
+							}
+							return false
+						})
+						return lower, upper, bound
+					}
+					lower, upper, bound := guardsAt(mk, n)
+					// a size that is a parameter of an unexported helper: the tests may be made by every caller instead
+					if par, isPar := n.(*ssa.Parameter); isPar && (!lower || !upper) && fn.Parent() == nil && fn.Object() != nil && !fn.Object().Exported() {
+						idx := -1
+						for i, pp := range fn.Params {
+							if pp == par {
+								idx = i
+							}
 						}
-						return false
-					})
+						nSites := 0
+						lo2, up2 := true, true
+						var b2 int64 = -1
+						for _, caller := range fns {
+							for _, cs := range core.CallsIn(caller, func(_ *ssa.Call, ci core.CallInfo) bool { return ci.Static == fn }) {
+								if idx < 0 || idx >= len(cs.Call.Args) {
+									continue
+								}
+								nSites++
+								l, u, b := guardsAt(cs, stripNum(cs.Call.Args[idx]))
+								lo2 = lo2 && l
+								up2 = up2 && u
+								if b2 < 0 || b > b2 {
+									b2 = b
+								}
+							}
+						}
+						if nSites > 0 {
+							lower, upper = lower || lo2, upper || up2
+							if b2 > bound {
+								bound = b2
+							}
+						}
+					}
 					c.Check(lower, key+":non-negative", mk.Pos(), "dominated by the n >= 0 edge", "allocation size derived from an unverified length prefix is not dominated by a sign test (negative size panics)")
 					switch {
 					case !upper:
@@ -375,6 +411,18 @@ func c07(c *core.Ctx) {
 						}
 					case idx == 0 && ci.Name == "Marshal":
 					case idx == 0 && ci.Name == "DecodeString":
+					case idx == 0 && isFullReadHelper(ci.Static):
+						// a helper of the package that makes the buffer, fills it with a full read and returns that
+						// read's error: the hand-over must sit on the nil edge of the error of this very call
+						hcall := call
+						if !core.GuardedBy(in, func(f core.Fact) bool {
+							return f.Op == token.EQL && core.IsNilConst(f.Y) && core.OriginIs(f.X, func(o2 ssa.Value) bool {
+								cr, i2, ok := core.CallResult(o2)
+								return ok && cr == hcall && i2 == 1
+							})
+						}) {
+							bad = "a full-read helper whose error has not been found nil: a truncated frame would be handed over as a message"
+						}
 					default:
 						bad = "the result of " + ci.Full()
 					}
@@ -419,7 +467,23 @@ func c07(c *core.Ctx) {
 				}
 				// tabled: the JSON codec asserts its argument to proto.Message; the
 				// argument is always the generated handler's proto message.
-				if implementsCodec(p, fn) && strings.HasSuffix(core.TypeStr(ta.AssertedType), "proto.Message") {
+				codecOnly := implementsCodec(p, fn)
+				if !codecOnly && fn.Parent() == nil && fn.Object() != nil && !fn.Object().Exported() {
+					// an unexported helper called only from codec methods shares their justification
+					n, all := 0, true
+					for _, g := range p.LibFuncs("httpgrpc") {
+						core.Instrs(g, func(x ssa.Instruction) {
+							if cc := core.CallOf(x); cc != nil && cc.StaticCallee() == fn {
+								n++
+								if !implementsCodec(p, g) {
+									all = false
+								}
+							}
+						})
+					}
+					codecOnly = n > 0 && all
+				}
+				if codecOnly && strings.HasSuffix(core.TypeStr(ta.AssertedType), "proto.Message") {
 					c.Ok(key, ta.Pos(), "tabled: codec %s is only handed generated proto messages by the handler glue", recv)
 				} else {
 					c.Fail(key, ta.Pos(), "type assertion without comma-ok in HTTP code can panic on unexpected input")
@@ -497,4 +561,57 @@ func implementsCodec(p *core.Prog, fn *ssa.Function) bool {
 	}
 	rt := fn.Signature.Recv().Type()
 	return types.Implements(rt, iface) || types.Implements(types.NewPointer(rt), iface)
+}
+
+// isFullReadHelper: func(io.Reader, n) ([]byte, error) of httpgrpc whose
+// returned buffer is a slice made in it and filled by io.ReadFull /
+// io.ReadAtLeast(min == len), and whose returned error is that read's error.
+func isFullReadHelper(fn *ssa.Function) bool {
+	if fn == nil || fn.Blocks == nil || !core.PkgIs(fn, "httpgrpc") || fn.Signature.Results().Len() != 2 ||
+		core.TypeStr(fn.Signature.Results().At(0).Type()) != "[]byte" || !core.IsErrorType(fn.Signature.Results().At(1).Type()) {
+		return false
+	}
+	rets := core.Returns(fn)
+	if len(rets) == 0 {
+		return false
+	}
+	for _, r := range rets {
+		if core.ClassifyErr(r.Results[1], r) == core.ErrNonNil && core.IsNilConst(r.Results[0]) {
+			continue // refusal
+		}
+		var read *ssa.Call
+		okBuf := core.AllOrigins(r.Results[0], func(o ssa.Value) bool {
+			mk, ok := o.(*ssa.MakeSlice)
+			if !ok {
+				return false
+			}
+			for _, rr := range core.Refs(mk) {
+				call, ok := rr.(*ssa.Call)
+				if !ok {
+					continue
+				}
+				ci := core.InfoOf(&call.Call)
+				if ci.Is("io.ReadFull") {
+					read = call
+				}
+				if ci.Is("io.ReadAtLeast") {
+					if lx, isLen := lenArg(call.Call.Args[2]); (isLen && lx == ssa.Value(mk)) || stripNum(mk.Len) == stripNum(call.Call.Args[2]) {
+						read = call
+					}
+				}
+			}
+			return read != nil
+		})
+		if !okBuf || read == nil {
+			return false
+		}
+		rd := read
+		if !core.AllOrigins(r.Results[1], func(o ssa.Value) bool {
+			cr, i, ok := core.CallResult(o)
+			return ok && cr == rd && i == 1
+		}) {
+			return false
+		}
+	}
+	return true
 }
